@@ -95,22 +95,24 @@ class Pcf:
                         mode = None
                     continue
                 if mode == "type":
-                    m = re.match(r"^0\s+(\d+)\s+(.*)$", line)
+                    m = re.match(r"^0 (\d+)", line)
                     if not m:
                         raise PrvError("bad pcf type line %r" % line)
                     cur = int(m.group(1))
                     if cur in self.types:
                         raise PrvError("pcf type %d twice" % cur)
-                    self.types[cur] = (m.group(2), {})
+                    # format is "0 %-10d %s"
+                    self.types[cur] = (line[2 + max(len(m.group(1)), 10) + 1:], {})
                     mode = "aftertype"
                 elif mode == "values":
-                    m = re.match(r"^(-?\d+)\s+(.*)$", line)
+                    m = re.match(r"^(-?\d+)", line)
                     if not m:
                         raise PrvError("bad pcf value line %r" % line)
                     v = int(m.group(1))
                     if v in self.types[cur][1]:
                         raise PrvError("pcf value %d twice in type %d" % (v, cur))
-                    self.types[cur][1][v] = m.group(2)
+                    # format is "%-4d %s"
+                    self.types[cur][1][v] = line[max(len(m.group(1)), 4) + 1:]
 
     def label(self, ty, v):
         t = self.types.get(ty)
